@@ -26,12 +26,12 @@ import (
 type StressResult struct {
 	Seconds        int      `json:"seconds"`
 	Workers        int      `json:"workers"`
-	Sessions       int64    `json:"sessions"`        // connect..disconnect rounds completed
-	Packets        int64    `json:"packets"`         // packets sent by the clients
-	Finished       bool     `json:"finished"`        // every worker returned after the stop signal
-	CloseReturned  bool     `json:"close_returned"`  // Server.Close returned
-	StuckOnLocks   []string `json:"stuck_on_locks"`  // broker frames of goroutines blocked in sync.(RW)Mutex when not finished
-	StallPingMs    int64    `json:"stall_ping_ms"`   // scenario 2: time until the publisher's PINGRESP arrived while the subscriber was stalled (-1: never within the limit)
+	Sessions       int64    `json:"sessions"`       // connect..disconnect rounds completed
+	Packets        int64    `json:"packets"`        // packets sent by the clients
+	Finished       bool     `json:"finished"`       // every worker returned after the stop signal
+	CloseReturned  bool     `json:"close_returned"` // Server.Close returned
+	StuckOnLocks   []string `json:"stuck_on_locks"` // broker frames of goroutines blocked in sync.(RW)Mutex when not finished
+	StallPingMs    int64    `json:"stall_ping_ms"`  // scenario 2: time until the publisher's PINGRESP arrived while the subscriber was stalled (-1: never within the limit)
 	StallLimitMs   int64    `json:"stall_limit_ms"`
 	StallBlockedAt []string `json:"stall_blocked_at"` // broker frames of the publisher's handler while blocked
 	StallRecovered bool     `json:"stall_recovered"`  // after the subscriber resumed reading the publisher was served
